@@ -8,6 +8,18 @@ from .absint import Arr, ExcVal, Frame, Interp, Mask, Obj, Opaque, Raised, Unkno
 from .num import Num
 
 
+def np_transpose(I, a, k, n):
+    """numpy.transpose of a (small, concrete-shaped) list of rows"""
+    v = a[0]
+    Vec_ = globals().get("Vec")
+    isvec = lambda x: Vec_ is not None and isinstance(x, Vec_)
+    rows = [list(r.items) if isvec(r) else list(r) if isinstance(r, (list, tuple)) else None for r in (v.items if isvec(v) else v)] \
+        if (isinstance(v, (list, tuple)) or isvec(v)) else None
+    if rows is None or any(r is None for r in rows) or len({len(r) for r in rows}) > 1:
+        I.err(n, f"numpy.transpose of {I.describe(v)}")
+    return [list(c) for c in zip(*rows)]
+
+
 def install(I: Interp):
     E, M, A = I.ext, I.libmeth, I.libattr
 
@@ -34,6 +46,7 @@ def install(I: Interp):
         I.err(n, f"numpy.asarray of {v!r}")
     E["numpy.asarray"] = asarray
     E["numpy.array"] = asarray
+    E["numpy.transpose"] = np_transpose
     E["numpy.inf"] = None  # placeholder, attribute handled below
 
     def linspace(I, a, k, n):
@@ -316,6 +329,12 @@ def install_vec(I: Interp):
             return Arr(Num.atom(f"{I.describe(v)}[{I.describe(idx[1])}:{I.describe(idx[2])}]"), (("slice", I.describe(idx[1]), I.describe(idx[2])),), "array")
         if isinstance(idx, Num):
             return Num.atom(f"{I.describe(v)}[{idx.canon()}]")
+        if isinstance(idx, Vec) and idx.items and all(isinstance(j, (bool, UnknownBool)) or getattr(j, "is_Boolean", False) or getattr(j, "is_Relational", False)
+                                                      for j in idx.items):
+            # boolean mask: one element per element of the vector, each decided (forked) on its own
+            if len(idx.items) != len(v.items):
+                raise I.fault("IndexError", n, "boolean index did not match indexed array")
+            return Vec([x for x, j in zip(v.items, idx.items) if I.truth(j, n)])
         if isinstance(idx, Vec):
             return Vec([vgetitem(I, v, [j], {}, n) for j in idx.items])
         if isinstance(idx, tuple) and len(idx) == 2 and all(isinstance(r, Vec) for r in v.items):
@@ -336,6 +355,9 @@ def install_vec(I: Interp):
         return None
     M[("Vec", "__setitem__")] = vsetitem
     zero = lambda I: (__import__("sympy").Integer(0) if getattr(I, "sympy_mode", False) else Num.const(0))
+    E["numpy.transpose"] = np_transpose
+    E["numpy.ndenumerate"] = lambda I, a, k, n: ([((Num.const(i),), v) for i, v in enumerate(a[0].items)] if isinstance(a[0], Vec)
+                                                  else [((), a[0])])
     E["numpy.zeros_like"] = lambda I, a, k, n: Vec([zero(I) for _ in a[0].items]) if isinstance(a[0], Vec) else zero(I)
     E["numpy.zeros"] = lambda I, a, k, n: Vec([zero(I) for _ in range(I.to_py(a[0], n))])
 
